@@ -279,6 +279,7 @@ type C20Stats struct {
 	Runs        int              `json:"runs"`
 	Startup     int              `json:"startup_runs"`
 	Warm        int              `json:"warm_runs"`
+	HTTP        int              `json:"http_runs"`
 	Yields      int64            `json:"yields"`
 	Switches    int64            `json:"switches"`
 	Tasks       int64            `json:"tasks"`
@@ -322,6 +323,7 @@ func (s *C20Stats) Merge(raw json.RawMessage) error {
 	s.Runs += o.Runs
 	s.Startup += o.Startup
 	s.Warm += o.Warm
+	s.HTTP += o.HTTP
 	s.Yields += o.Yields
 	s.Switches += o.Switches
 	s.Tasks += o.Tasks
@@ -358,9 +360,12 @@ func (s *C20Stats) InfraCount() (int, []string) { return s.Infra, s.InfraMsgs }
 
 func (s *C20Stats) absorb(o *schedOut) {
 	s.Runs++
-	if o.Mode == "startup" {
+	switch o.Mode {
+	case "startup":
 		s.Startup++
-	} else {
+	case "http":
+		s.HTTP++
+	default:
 		s.Warm++
 	}
 	s.Yields += int64(o.Yields)
@@ -406,8 +411,11 @@ func funcOfSite(site string) string {
 func (c *c20Check) Run(seed, run uint64, rec []uint32, st Stats, only *Viol) []Viol {
 	s := st.(*C20Stats)
 	mode := "warm"
-	if run%4 == 0 {
+	switch {
+	case run%4 == 0:
 		mode = "startup"
+	case run%4 == 2 && HTTPAvailable:
+		mode = "http"
 	}
 	var explicit *schedOut
 	if only != nil {
@@ -550,6 +558,7 @@ func (c *c20Check) Evidence(st Stats, tier string) (map[string]interface{}, []st
 		"samples":                     s.Samples,
 		"startup_runs":                s.Startup,
 		"warm_runs":                   s.Warm,
+		"http_handler_runs": s.HTTP,
 		"yield_points_passed":         s.Yields,
 		"switches":                    s.Switches,
 		"tasks_total":                 s.Tasks,
@@ -570,7 +579,7 @@ func (c *c20Check) Evidence(st Stats, tier string) (map[string]interface{}, []st
 		"fault_kinds":       "schedule choice only (goroutine interleaving); no clock, network or disk exists in these paths",
 		"real_vs_stub": map[string]string{
 			"real": "whole interpreter incl. di.InjectBuiltInProps goroutines, object/hashtable.go lock and tables, evaluator; real goroutines, real sync.RWMutex and channels (operations are performed after the model admits them)",
-			"stub": "the choice of which goroutine runs (token passing at AST-inserted yield points); HTTP handler goroutines are represented by evaluation tasks calling the same evaluator paths (no sockets)",
+			"stub": "the choice of which goroutine runs (token passing at AST-inserted yield points); the HTTP transport (requests are served through echo.ServeHTTP with httptest recorders: real router, real toHandler/requestToObj/handler callbacks, no sockets)",
 		},
 	}
 	if len(s.Samples) == 0 {
